@@ -1196,7 +1196,11 @@ impl<'a, W: AsRef<[u64]>> YamlCursor<'a, W> {
                 _ => self.find_scalar_end(start),
             }
         };
-        Some(&self.text[start..end.min(self.text.len())])
+        let end = end.min(self.text.len());
+        if end < start {
+            return None;
+        }
+        Some(&self.text[start..end])
     }
 
     fn find_double_quote_end(&self, start: usize) -> usize {
@@ -1745,7 +1749,7 @@ impl<'a, W: AsRef<[u64]>> YamlCursor<'a, W> {
                         keyed.sort_by(|a, b| a.0.cmp(&b.0));
                         items = keyed.into_iter().map(|(_, field)| field).collect();
                     }
-                    let last_index = items.len() - 1;
+                    let last_index = items.len().saturating_sub(1);
                     for (i, field) in items.into_iter().enumerate() {
                         if i != 0 {
                             out.write_str(", ")?;
